@@ -159,7 +159,7 @@ func (g *g) expr(depth int) string {
 	}
 	switch g.t.Draw(n) {
 	case 0:
-		switch g.t.Draw(6) {
+		switch g.t.Draw(7) {
 		case 0:
 			return g.q() + "." + g.pick(exported) // pkg.Foo.Bar: Sel of a selector whose X is itself a selector
 		case 1:
@@ -168,6 +168,9 @@ func (g *g) expr(depth int) string {
 			return fmt.Sprintf("%s.%s.%s", g.pick(locals), g.pick(locals), g.pick(exported)) // a.b.C on locals
 		case 3:
 			return fmt.Sprintf("%s[%d].%s", g.q(), g.t.Draw(4), g.pick(exported))
+		case 4:
+			// the selector on the line after the dot
+			return strings.Replace(g.q(), ".", ".\n", 1)
 		}
 		return g.q()
 	case 1:
